@@ -72,6 +72,8 @@ def c16_plan(tier, seed, known):
     jobs = split_jobs("e1store", "C16", seed, n_hist, 3, 4, "default", known, tier)
     # L2: sled's failpoints are process-global, so each process runs its simulations one at a time
     jobs += split_jobs("e1store", "C16", seed, n_l2, 4, 1, "default", known, tier, extra=["--l2"], base=50_000_000)
+    # reopen while the storage lock is still held (simulated clock): acknowledged data must survive
+    jobs += split_jobs("e5d", "C16", seed, 400 if thorough else 80, 1, 1, "default", known, tier, base=70_000_000)
     return {
         "jobs": jobs,
         "level": "fault_enumeration",
@@ -165,3 +167,84 @@ def c11_plan(tier, seed, known):
 
 
 PLANS["C11"] = c11_plan
+
+
+def transcript_stage(prop, pools, seeds_per_tier, repeat):
+    def custom(api):
+        import transcripts
+        tier, seed = api["tier"], api["seed"]
+        n = seeds_per_tier[1] if tier == "thorough" else seeds_per_tier[0]
+        res = {"evaluations": 0, "nontrivial": 0, "counters": {}, "samples": [], "violations": [], "harness_errors": []}
+        for k in range(n):
+            s = seed * 1000 + k
+            rc, info = transcripts.compare(prop, s, pools, repeat)
+            res["evaluations"] += len(pools) * repeat
+            if rc == 2:
+                res["harness_errors"].append(f"transcript worker failed (seed {s})")
+                continue
+            res["nontrivial"] += len(pools) * repeat
+            res["counters"]["transcript_processes"] = res["counters"].get("transcript_processes", 0) + len(pools) * repeat
+            res["counters"]["transcript_lines_compared"] = res["counters"].get("transcript_lines_compared", 0) + info["lines"] * (len(pools) * repeat - 1)
+            if k == 0:
+                res["samples"].append({"transcript_seed": s, "pool_sizes": pools, "lines": info["sample"]})
+            if rc == 1:
+                argv = ["python3", "lib/transcripts.py", "compare", prop, str(s), ",".join(map(str, pools)), "--repeat", str(repeat)]
+                res["violations"].append({
+                    "violation": {"property": prop, "class": f"{prop}|transcript|differs_or_invariant", "clause": "transcript", "detail": f"transcripts differ between processes / pool sizes {pools} or an invariant line is false (seed {s}); run the replay for the lines"},
+                    "trace": {"engine": "transcript", "property": prop, "seed": s, "pools": pools, "variant": "default"},
+                    "replay_argv": argv, "variant": "default", "seed": f"transcript-{s}",
+                })
+        return res
+    return custom
+
+
+def c18_plan(tier, seed, known):
+    thorough = tier == "thorough"
+    jobs = split_jobs("e5b", "C18", seed, 2400 if thorough else 320, 16, 1, "default", known, tier, rayons=(1, 2, 4, 2))
+    jobs += split_jobs("e5d", "C18", seed, 600 if thorough else 130, 1, 1, "default", known, tier, base=70_000_000)
+    return {
+        "jobs": jobs,
+        "custom": transcript_stage("C18", [1, 2, 4, 16], (2, 8), 1),
+        "level": "exploration",
+        "rule": ("(b) one evaluation = one seeded scenario of 2-4 caller threads: a cold phase (hash, Poseidon, key derivation, RLN::new racing on the lazily "
+                 "initialised globals; the first run of each worker process is really cold) and a shared-instance phase (verify*, get_*, key derivation, FFI "
+                 "forms, recover) under the baton scheduler: real threads, only the baton holder runs, hand-over only at yield points (API entry/exit and the "
+                 "guarded yield points in /repo), next holder drawn from the PRNG in one of three modes (uniform, sticky, priority with change points); every "
+                 "result is compared with the same call made sequentially; non-trivial and distinct = distinct recorded schedule (thread id per decision) with "
+                 "at least one hand-over. (a) each transcript process counts as one evaluation: a fixed seeded workload (batch roots, witness vector, witness "
+                 "map, proof values, verdicts, identities, hashes) under RAYON_NUM_THREADS in {1,2,4,16}, transcripts must be identical. (d) one evaluation = "
+                 "one re-creation of an instance on a location whose lock the simulator holds until simulated time D (grid 0..1111 ms plus long values), the "
+                 "retry loop's sleeps advancing the simulated clock"),
+        "real": ["rln::public::RLN shared by real caller threads", "lazily initialised ZKEY / POSEIDON globals", "rln::ffi read-only entry points", "sled + pmtree (reads; the contended open path with the real flock and the real WouldBlock recognition)", "rayon pools of arkworks and pmtree at sizes 1/2/4/16"],
+        "stub": ["caller-thread scheduling (baton: the simulator decides who runs at each yield point)", "the clock behind the open-retry back-off (simulated)", "the previous owner holding the storage lock (the simulator holds the flock itself)"],
+        "assumptions": ["interleaving is controlled only at yield points: a race confined between two yield points is not seen (Miri was measured too slow for this code: ~15 min per schedule)",
+                        "rayon's work stealing inside one call and sled's background threads are not controlled; nothing they decide is logged; pool size is controlled"],
+        "simulated_time": "retry clock only: see coverage.other_counters.simulated_ms (sum of simulated back-off over all runs)",
+        "timeout_s": 3400 if thorough else 1200,
+    }
+
+
+def c14_plan(tier, seed, known):
+    thorough = tier == "thorough"
+    jobs = split_jobs("e5b", "C14", seed, 1600 if thorough else 192, 16, 1, "default", known, tier, rayons=(1, 2, 4, 2))
+    return {
+        "jobs": jobs,
+        "custom": transcript_stage("C14", [1, 4], (2, 6), 2),
+        "level": "exploration",
+        "rule": ("placements of key generation: (i) transcript processes (fresh process x2 per pool size 1 and 4): seeded identities for seeds {empty, 1 byte, 7, 32, "
+                 "300 bytes, the documented phrase} through protocol::, RLN:: and ffi:: must be byte-identical across entry points and processes, the two "
+                 "documented reference seeds must give the documented identities, relations commitment = H(secret), secret = H(trapdoor, nullifier) and canonical "
+                 "encodings hold for seeded and unseeded identities of every entry point, distinct seeds / repeated unseeded calls give distinct identities; "
+                 "(ii) baton-scheduled threads (key-derivation heavy scripts, cold and shared phases): each result equals the sequential call, concurrent "
+                 "unseeded identities are pairwise distinct; one evaluation = one process or one scheduled scenario; non-trivial/distinct = distinct schedule "
+                 "with a hand-over, or a transcript process"),
+        "real": ["rln::protocol key generation, rln::public::RLN::*key_gen, rln::ffi::*key_gen", "Poseidon / Keccak / ChaCha20 as linked"],
+        "stub": ["caller-thread scheduling (baton)", "process placement (separate worker processes)"],
+        "assumptions": ["the relation and canonical-encoding clauses are functions of the output only; they are checked on every identity the simulation produces",
+                        "unseeded generation draws from thread_rng (not controlled): only relations and distinctness are asserted"],
+        "timeout_s": 3000 if thorough else 900,
+    }
+
+
+PLANS["C18"] = c18_plan
+PLANS["C14"] = c14_plan
